@@ -17,8 +17,8 @@ Trc == ndJsonDeserialize(IOEnv.TRACE)
 NLines == Len(Trc)
 VARIABLES l, x, data, fcls,   \* fcls[f]: content class of file f as last logged (-1: does not exist)
           ref,                \* the answers of the first container probed in this execution (C12: all containers answer alike)
-          lastKind, nviol, cnt, done
-vars == <<l, x, data, fcls, ref, lastKind, nviol, cnt, done>>
+          lastKind, nviol, ndrift, cnt, done
+vars == <<l, x, data, fcls, ref, lastKind, nviol, ndrift, cnt, done>>
 Ev == Trc[l]
 IsEvent(e) == l <= NLines /\ Ev.e = e /\ l' = l + 1
 Viol(prop, what) == PrintT(<<"TRACE-VIOLATION", prop, l, x, what>>)
@@ -34,15 +34,15 @@ UBrec(a, key, lo, hi) == IF lo >= hi THEN lo ELSE LET mid == (lo + hi) \div 2 IN
 LB(key) == LBrec(data, key, 0, Len(data))
 UB(key) == UBrec(data, key, 0, Len(data))
 
-TInit == l = 2 /\ x = -1 /\ data = <<>> /\ fcls = <<-1, -1>> /\ ref = <<>> /\ lastKind = "none" /\ nviol = 0
+TInit == l = 2 /\ x = -1 /\ data = <<>> /\ fcls = <<-1, -1>> /\ ref = <<>> /\ lastKind = "none" /\ nviol = 0 /\ ndrift = 0
          /\ cnt = [probes |-> 0, containers |-> 0, files |-> 0] /\ done = FALSE
-TReset == IsEvent("Reset") /\ x' = Ev.x /\ data' = <<>> /\ fcls' = <<-1, -1>> /\ ref' = <<>> /\ lastKind' = "none" /\ UNCHANGED <<nviol, cnt, done>>
-TData == IsEvent("Data") /\ data' = Ev.data /\ UNCHANGED <<x, fcls, ref, lastKind, nviol, cnt, done>>
+TReset == IsEvent("Reset") /\ x' = Ev.x /\ data' = <<>> /\ fcls' = <<-1, -1>> /\ ref' = <<>> /\ lastKind' = "none" /\ UNCHANGED <<nviol, ndrift, cnt, done>>
+TData == IsEvent("Data") /\ data' = Ev.data /\ UNCHANGED <<x, fcls, ref, lastKind, nviol, ndrift, cnt, done>>
 TCreate == /\ IsEvent("Create") /\ lastKind' = Ev.kind
            /\ nviol' = nviol + CountFailed(<< <<Ev.out = "ok", "C12", "constructor_failed">> >>, 1)
            /\ cnt' = [cnt EXCEPT !.containers = @ + 1]
-           /\ UNCHANGED <<x, data, fcls, ref, done>>
-TClose == IsEvent("Close") /\ lastKind' = "close" /\ UNCHANGED <<x, data, fcls, ref, nviol, cnt, done>>
+           /\ UNCHANGED <<x, data, fcls, ref, ndrift, done>>
+TClose == IsEvent("Close") /\ lastKind' = "close" /\ UNCHANGED <<x, data, fcls, ref, nviol, ndrift, cnt, done>>
 \* a File line reports one file after the last action
 TFile ==
   /\ IsEvent("File")
@@ -53,18 +53,19 @@ TFile ==
               \* reopening / closing never alters a file (its content class stays what it was)
               <<(lastKind \in {"reopen", "close"} /\ Ev.when # "end") => Ev.cls = fcls[f], "C12", "file_changed_by_reopen_or_close">>,
               <<Ev.when = "end" => Ev.cls = fcls[f], "C12", "file_changed_after_last_action">>,
-              \* the header describes the data
-              <<Ev.exists = 1 => (Ev.hn = Len(data) /\ Ev.keys_at_end), "C12", "header_count_or_keys_wrong">>,
-              <<Ev.exists = 1 => Ev.hfirst = data[1], "C12", "header_first_key_wrong">>,
               \* the two construction paths write byte-identical files: all existing files share one content class
               <<(Ev.exists = 1 /\ fcls[other] >= 0) => Ev.cls = fcls[other], "C12", "files_of_the_two_constructors_differ">> >>, 1)
+        \* tier B (never an alarm: the property does not fix a file layout): with the layout the code has today - header_bytes, n,
+        \* first_key, levels_offsets, segments, then the keys - the header fields describe the data
+        /\ ndrift' = ndrift + (IF Ev.exists = 1 /\ ~(Ev.hn = Len(data) /\ Ev.keys_at_end /\ Ev.hfirst = data[1])
+                                THEN (IF PrintT(<<"TRACE-DRIFT", "C12", l, x, "header_fields_do_not_describe_the_data">>) THEN 1 ELSE 1) ELSE 0)
         /\ fcls' = [fcls EXCEPT ![f] = IF Ev.exists = 1 THEN Ev.cls ELSE -1]
         /\ cnt' = [cnt EXCEPT !.files = @ + 1]
   /\ UNCHANGED <<x, data, ref, lastKind, done>>
 TSeq == /\ IsEvent("Seq")
         /\ nviol' = nviol + CountFailed(<< <<Ev.seq = data /\ Ev.size = Len(data), "C11", "begin_end_size_do_not_expose_the_sequence">>,
                                            <<Ev.seq = data, "C12", "container_does_not_hold_the_sequence">> >>, 1)
-        /\ UNCHANGED <<x, data, fcls, ref, lastKind, cnt, done>>
+        /\ UNCHANGED <<x, data, fcls, ref, lastKind, ndrift, cnt, done>>
 \* rows: <<q, lower_bound, upper_bound, count, contains>>
 TProbe == /\ IsEvent("Probe")
           /\ nviol' = nviol + CountFailed(<<
@@ -75,11 +76,11 @@ TProbe == /\ IsEvent("Probe")
                 <<ref = <<>> \/ Ev.rows = ref, "C12", "containers_of_the_same_data_answer_differently">> >>, 1)
           /\ ref' = (IF ref = <<>> THEN Ev.rows ELSE ref)
           /\ cnt' = [cnt EXCEPT !.probes = @ + Len(Ev.rows)]
-          /\ UNCHANGED <<x, data, fcls, lastKind, done>>
-TEnd == IsEvent("End") /\ UNCHANGED <<x, data, fcls, ref, lastKind, nviol, cnt, done>>
-TDone == /\ l = NLines + 1 /\ ~done /\ PrintT(<<"TRACE-DONE", NLines, nviol, 0>>)
+          /\ UNCHANGED <<x, data, fcls, lastKind, ndrift, done>>
+TEnd == IsEvent("End") /\ UNCHANGED <<x, data, fcls, ref, lastKind, nviol, ndrift, cnt, done>>
+TDone == /\ l = NLines + 1 /\ ~done /\ PrintT(<<"TRACE-DONE", NLines, nviol, ndrift>>)
          /\ \A f \in DOMAIN cnt : PrintT(<<"TRACE-COUNT", f, cnt[f]>>)
-         /\ done' = TRUE /\ UNCHANGED <<l, x, data, fcls, ref, lastKind, nviol, cnt>>
+         /\ done' = TRUE /\ UNCHANGED <<l, x, data, fcls, ref, lastKind, nviol, ndrift, cnt>>
 TNext == TReset \/ TData \/ TCreate \/ TClose \/ TFile \/ TSeq \/ TProbe \/ TEnd \/ TDone
 TSpec == TInit /\ [][TNext]_vars
 TraceAccepted == TLCGet("stats").diameter = NLines + 1
